@@ -531,4 +531,39 @@ Proof.
            (reach_nf_reach _ _ R) En Hun).
 Qed.
 
+
+(* a prefix of the canonical stream is whole frames, or whole frames plus ONE header whose
+   payload is the first element of the rest *)
+Lemma prefix_shape : forall ps n w f, w ++ f = frames n ps ->
+  exists j,
+    (w = frames n (firstn j ps) /\ f = frames (n + j) (skipn j ps)) \/
+    (exists p r, skipn j ps = p :: r /\ w = frames n (firstn j ps) ++ [hdr (enc (n + j) p)] /\
+                 f = enc (n + j) p :: frames (S (n + j)) r).
+Proof.
+  induction ps as [|p r IH]; intros n w f H; simpl in H.
+  - apply app_eq_nil in H. destruct H as [-> ->]. exists 0. left. simpl. auto.
+  - destruct w as [|x [|y w']]; simpl in H.
+    + exists 0. left. simpl. rewrite Nat.add_0_r. auto.
+    + inversion H; subst. exists 0. right. exists p, r. simpl. rewrite Nat.add_0_r. auto.
+    + inversion H as [[Hx Hy Hw]]. destruct (IH (S n) w' f Hw) as [j [[E1 E2]|(p' & r' & E0 & E1 & E2)]].
+      * exists (S j). left. simpl. rewrite E1 at 1. replace (n + S j) with (S n + j) by lia. auto.
+      * exists (S j). right. exists p', r'. simpl. replace (n + S j) with (S n + j) by lia.
+        split; [exact E0|]. split; [|exact E2]. rewrite E1 at 1. reflexivity.
+Qed.
+
+(* the wire is always whole frames (nonces 0..j-1), plus possibly ONE header; in that case the
+   header's payload is the very next pending write below the coder (futs = the pending writes of
+   the unique thread below the coder, frames_whole_thm) *)
+Theorem dangling_header_thm opss c :
+  entry_ok' opss -> reach_nf opss c ->
+  exists j,
+    (wire (sh c) = frames 0 (firstn j (sent (sh c))) /\ futs c = frames j (skipn j (sent (sh c)))) \/
+    (exists p r, skipn j (sent (sh c)) = p :: r /\
+                 wire (sh c) = frames 0 (firstn j (sent (sh c))) ++ [hdr (enc j p)] /\
+                 futs c = enc j p :: frames (S j) r).
+Proof.
+  intros EO R. destruct (frames_whole_thm _ _ EO R) as (W1 & _).
+  exact (prefix_shape _ 0 _ _ W1).
+Qed.
+
 End C11Proofs.
